@@ -226,15 +226,40 @@ Proof.
 Qed.
 Print Assumptions C13_time_from_switches.
 
-(* ---- floats: conversions are oracles with the contracts named as hypotheses; a narrowing / big.Float conversion is
-   accepted only when the oracle says it is exact *)
+(* ---- floats: IEEE conversions and math/big.Float are oracles; the documented behaviour each theorem relies on is its premise.
+   V: the values (extended reals and one NaN, vnan) that bit patterns / big.Floats denote.  A narrowing, a big.Float source and a
+   big.Float destination are accepted only when the value delivered is the value given; nothing assumes a conversion exact. *)
+
+(* float64 -> float32 (CQL double into *float32, Go float64 into CQL float): the same value - NaN to NaN - or an error.
+   Premises: widening is exact; == holds only between equal values; IsNaN is true only for NaN; a NaN narrows to a NaN. *)
 Theorem C13_float64ToFloat32_exact :
-  forall (O : oracles) (V : Type) (val64 val32 : Z -> V),
+  forall (O : oracles) (V : Type) (val64 val32 : Z -> V) (vnan : V),
   (forall w, val64 (o_f32_to_f64 O w) = val32 w) ->
   (forall a b, o_f64_eqb O a b = true -> val64 a = val64 b) ->
+  (forall b, o_f64_isnan O b = true -> val64 b = vnan) ->
+  (forall b, o_f64_isnan O b = true -> val32 (o_f64_to_f32 O b) = vnan) ->
   forall v w, float64ToFloat32 O v = Ok w -> val32 w = val64 v.
 Proof. exact float64ToFloat32_exact. Qed.
 Print Assumptions C13_float64ToFloat32_exact.
+
+(* the NaN clause on its own: a float64 NaN that is delivered is delivered as a NaN (never as a number or an infinity) *)
+Theorem C13_float64ToFloat32_nan :
+  forall (O : oracles) (V : Type) (val64 val32 : Z -> V) (vnan : V),
+  (forall w, val64 (o_f32_to_f64 O w) = val32 w) ->
+  (forall a b, o_f64_eqb O a b = true -> val64 a = val64 b) ->
+  (forall b, o_f64_isnan O b = true -> val64 b = vnan) ->
+  (forall b, o_f64_isnan O b = true -> val32 (o_f64_to_f32 O b) = vnan) ->
+  forall v w, o_f64_isnan O v = true -> float64ToFloat32 O v = Ok w -> val32 w = vnan /\ val64 v = vnan.
+Proof. exact float64ToFloat32_nan. Qed.
+Print Assumptions C13_float64ToFloat32_nan.
+
+(* what is accepted: a value that survives float32 and back always; a value that does not, and is not NaN, never *)
+Theorem C13_float64ToFloat32_accepts :
+  forall (O : oracles) v,
+  (o_f64_eqb O (o_f32_to_f64 O (o_f64_to_f32 O v)) v = true -> float64ToFloat32 O v = Ok (o_f64_to_f32 O v)) /\
+  (o_f64_eqb O (o_f32_to_f64 O (o_f64_to_f32 O v)) v = false -> o_f64_isnan O v = false -> float64ToFloat32 O v = Err).
+Proof. exact float64ToFloat32_accepts. Qed.
+Print Assumptions C13_float64ToFloat32_accepts.
 
 Theorem C13_bigFloatToFloat64_exact :
   forall (O : oracles) (V : Type) (val64 : Z -> V) (valbig : bigfloat -> V),
@@ -243,12 +268,63 @@ Theorem C13_bigFloatToFloat64_exact :
 Proof. exact bigFloatToFloat64_exact. Qed.
 Print Assumptions C13_bigFloatToFloat64_exact.
 
+(* double -> *big.Float whose precision the caller has preset to ANY p (0 = unset, 10, 24, 53, 200 ...): the value stored is exactly
+   the double, or an error is returned.  Premise: the documented behaviour of math/big - z.SetFloat64(x) rounds x to z's precision and
+   z.Acc() is Exact (0) precisely when z then holds x.  That SetFloat64 is exact is NOT assumed (it is false below 53 bits): the
+   conclusion follows from the dest.Acc() test of float64ToBigFloat. *)
 Theorem C13_float64ToBigFloat_exact :
   forall (O : oracles) (V : Type) (val64 : Z -> V) (valbig : bigfloat -> V),
-  (forall b, o_f64_isnan O b = false -> valbig (o_BigFloat_SetFloat64 O b) = val64 b) ->
-  forall b st, float64ToBigFloat O b = Ok st -> exists f, st = Some (G_bigfloat f) /\ valbig f = val64 b.
+  (forall p b f a, o_f64_isnan O b = false -> o_BigFloat_SetFloat64 O p b = (f, a) -> (a = 0 <-> valbig f = val64 b)) ->
+  forall b p st, float64ToBigFloat O b p = Ok st -> exists f, st = Some (G_bigfloat f) /\ valbig f = val64 b.
 Proof. exact float64ToBigFloat_exact. Qed.
 Print Assumptions C13_float64ToBigFloat_exact.
+
+(* and it decides: NaN is refused; otherwise the value is accepted if the destination holds it unrounded and refused if not *)
+Theorem C13_float64ToBigFloat_decides :
+  forall (O : oracles) (V : Type) (val64 : Z -> V) (valbig : bigfloat -> V),
+  (forall p b f a, o_f64_isnan O b = false -> o_BigFloat_SetFloat64 O p b = (f, a) -> (a = 0 <-> valbig f = val64 b)) ->
+  forall b p,
+  (o_f64_isnan O b = true -> float64ToBigFloat O b p = Err) /\
+  (o_f64_isnan O b = false -> forall f a, o_BigFloat_SetFloat64 O p b = (f, a) ->
+     (valbig f = val64 b -> float64ToBigFloat O b p = Ok (Some (G_bigfloat f))) /\
+     (valbig f <> val64 b -> float64ToBigFloat O b p = Err)).
+Proof. exact float64ToBigFloat_decides. Qed.
+Print Assumptions C13_float64ToBigFloat_decides.
+
+(* the whole CQL double switch (Double.Decode of a non-NULL value), per destination: *float64 / *interface{} receive the bits,
+   *float32 and *big.Float (every preset precision) the same value or an error; every other destination is an error *)
+Theorem C13_convertFromFloat64_exact :
+  forall (O : oracles) (V : Type) (val64 val32 : Z -> V) (valbig : bigfloat -> V) (vnan : V),
+  (forall w, val64 (o_f32_to_f64 O w) = val32 w) ->
+  (forall a b, o_f64_eqb O a b = true -> val64 a = val64 b) ->
+  (forall b, o_f64_isnan O b = true -> val64 b = vnan) ->
+  (forall b, o_f64_isnan O b = true -> val32 (o_f64_to_f32 O b) = vnan) ->
+  (forall p b f a, o_f64_isnan O b = false -> o_BigFloat_SetFloat64 O p b = (f, a) -> (a = 0 <-> valbig f = val64 b)) ->
+  forall b d st, convertFromFloat64 O b false d = Ok st ->
+  match d with
+  | D_pfloat64 false | D_piface false => st = Some (G_float64 b)
+  | D_pfloat32 false => exists w, st = Some (G_float32 w) /\ val32 w = val64 b
+  | D_pbigfloat false _ => exists f, st = Some (G_bigfloat f) /\ valbig f = val64 b
+  | _ => False
+  end.
+Proof. exact convertFromFloat64_exact. Qed.
+Print Assumptions C13_convertFromFloat64_exact.
+
+(* the CQL float switch on the encode side (Float.Encode): float32 sources pass unchanged, float64 sources the same value or error *)
+Theorem C13_convertToFloat32_exact :
+  forall (O : oracles) (V : Type) (val64 val32 : Z -> V) (vnan : V),
+  (forall w, val64 (o_f32_to_f64 O w) = val32 w) ->
+  (forall a b, o_f64_eqb O a b = true -> val64 a = val64 b) ->
+  (forall b, o_f64_isnan O b = true -> val64 b = vnan) ->
+  (forall b, o_f64_isnan O b = true -> val32 (o_f64_to_f32 O b) = vnan) ->
+  forall g w, convertToFloat32 O g = Ok (w, false) ->
+  match g with
+  | G_float32 b | G_pfloat32 (Some b) => w = b
+  | G_float64 b | G_pfloat64 (Some b) => val32 w = val64 b
+  | _ => False
+  end.
+Proof. exact convertToFloat32_exact. Qed.
+Print Assumptions C13_convertToFloat32_exact.
 
 (* non-vacuity *)
 Example C13_helpers_nonvacuous :
@@ -283,3 +359,24 @@ Example C13_time_nonvacuous :
   ConvertTimeToEpochDays (185542587187199, 0) = Ok 2147483647 /\
   ConvertEpochMillisToTime (-1) = (-1, 999000000) /\ time_wf (-1, 999000000).
 Proof. exact time_examples. Qed.
+
+(* the float premises are satisfiable together (toy instance Otoy of proofs/NumericFloats.v: 7 is the NaN, float32 saturates at 99,
+   a destination of precision p > 0 holds multiples of 2^p), and on it every outcome occurs *)
+Example C13_float_contracts_satisfiable :
+  (forall w, toy_val (o_f32_to_f64 Otoy w) = toy_val w) /\
+  (forall a b, o_f64_eqb Otoy a b = true -> toy_val a = toy_val b) /\
+  (forall b, o_f64_isnan Otoy b = true -> toy_val b = None) /\
+  (forall b, o_f64_isnan Otoy b = true -> toy_val (o_f64_to_f32 Otoy b) = None) /\
+  (forall f b, o_BigFloat_Float64 Otoy f = (b, 0) -> toy_val b = toy_valbig f) /\
+  (forall p b f a, o_f64_isnan Otoy b = false -> o_BigFloat_SetFloat64 Otoy p b = (f, a) ->
+     (a = 0 <-> toy_valbig f = toy_val b)).
+Proof. exact float_contracts_satisfiable. Qed.
+
+Example C13_floats_nonvacuous :
+  float64ToFloat32 Otoy 7 = Ok 7 /\ float64ToFloat32 Otoy 50 = Ok 50 /\ float64ToFloat32 Otoy 150 = Err /\
+  float64ToBigFloat Otoy 5 0 = Ok (Some (G_bigfloat (5, 0))) /\ float64ToBigFloat Otoy 4 1 = Ok (Some (G_bigfloat (4, 0))) /\
+  float64ToBigFloat Otoy 5 1 = Err /\ float64ToBigFloat Otoy 7 0 = Err /\
+  convertFromFloat64 Otoy 5 false (D_pbigfloat false 1) = Err /\
+  convertFromFloat64 Otoy 6 false (D_pbigfloat false 1) = Ok (Some (G_bigfloat (6, 0))) /\
+  convertFromFloat64 Otoy 7 false (D_pfloat32 false) = Ok (Some (G_float32 7)).
+Proof. exact float_examples. Qed.
